@@ -63,6 +63,11 @@ func buildFamily(x *Executor, seed uint64, idx int) (*family, int, error) {
 			opt.RichParser = false
 		}
 		cand := specgen.Generate(r.Uint64(), opt)
+		if idx%4 == 0 {
+			// every fourth family splits its grammar over three files, two of
+			// which declare tokens: the order in which lox reads them matters
+			cand.TwoFiles, cand.SplitLex = true, true
+		}
 		gv = specgen.GoVariant{FileName: []string{"parser.go", "ast.go", "a.go", "zz.go"}[r.Intn(4)]}
 		if r.Intn(4) == 0 {
 			gv.SplitFile = []string{"actions.go", "y_actions.go"}[r.Intn(2)]
